@@ -94,6 +94,7 @@ class GenCfg:
     loner: bool = False              # an extra host thread with ONE childless operator that outlasts everything else
     p_overhang: float = 0.0          # an operator ends 1-2 us BEFORE its last child (timer glitch: not properly nested any more)
     p_nested_annotation: float = 0.0 # a child slot of an operator becomes a user annotation that wraps further operators
+    bwd_end_tie: bool = False        # the last autograd operator inside a backward annotation / profiler step ends exactly when that one ends
     same_tid_process: bool = False   # the first extra host thread belongs to ANOTHER process and has the same tid as the main thread
     python_functions: bool = False   # interpreter frames (cat python_function, profiles taken with stacks) spanning some host operators
     tie_sync: bool = False           # the main thread ends with one kernel per stream, all ending at the same instant, and a device sync
@@ -485,6 +486,20 @@ def gen_rank(rng: random.Random, cfg: GenCfg, rank: int) -> RankTrace:
     first_host = None
     _run_threads(threads)
     events = sim.ev
+    if cfg.bwd_end_tie and cfg.bwd_thread:
+        bt = [e for e in events if e["pid"] == sim.pid and e["tid"] == main_tid + 1]
+        tops = [e for e in bt if not any(o is not e and o["ts"] <= e["ts"] and e["ts"] + e["dur"] <= o["ts"] + o["dur"] and (o["dur"] > e["dur"] or o["ts"] < e["ts"]) for o in bt)]
+        annos = [e for e in events if e["pid"] == sim.pid and e["tid"] == main_tid and e["cat"] == "user_annotation"
+                 and (e["name"].startswith("## backward ##") or e["name"].startswith("ProfilerStep#"))]
+        for a in annos:
+            a_end = a["ts"] + a["dur"]
+            inside = [x for x in tops if a["ts"] <= x["ts"] and x["ts"] + x["dur"] <= a_end and x["dur"] > 0]
+            if not inside:
+                continue
+            x = max(inside, key=lambda e: e["ts"] + e["dur"])
+            x_end = x["ts"] + x["dur"]
+            if x_end < a_end and not any(o is not x and x_end <= o["ts"] < a_end for o in bt) and not any(o is not x and o["ts"] < a_end < o["ts"] + o["dur"] for o in bt):
+                x["dur"] = a_end - x["ts"]
     if cfg.same_tid_process and cfg.n_extra_threads >= 1:
         for e in events:
             if e["pid"] == sim.pid and e["tid"] == main_tid + 2:
